@@ -401,6 +401,10 @@ def extra_cfgs(ctx):
                    rr=(0.0, 0.0), instances=1, helper=True) for cy in (0, 1)]
     two += [dict(sid=sid, window=(0.125, 0.25), frac=0.0, reps=1, cyclic=cy, ttl=3, collect=col, rr=(2.0 ** -5, 2.0 ** -4),
                  instances=1, endpoint_cyclic_differs=True) for cy in (0, 1) for col in (0, C)]
+    # a cyclic period longer than the TTL (legal; the offer expires between two cyclic offers): the TTL on the wire is the
+    # configured one all the same
+    two += [dict(sid=sid, window=(0.125, 0.25), frac=0.0, reps=reps, cyclic=1.5, ttl=1, collect=col, rr=(2.0 ** -5, 2.0 ** -4),
+                 instances=1) for reps in (0, 1) for col in (0, C)]
     # two instances whose schedules are 3/64 s apart, answers waiting for two finders
     two += [dict(sid=sid, window=(0.0, 0.0), frac=0.0, reps=1, cyclic=cy, ttl=ttl, collect=C, rr=(2.0 ** -5, 2.0 ** -4),
                  instances=2, stagger=3 / 64) for cy in (0, 1) for ttl in (3, INF)]
